@@ -66,6 +66,10 @@ P = {
    "Real block relay registration rounds, REST registrations and the real proposal preparer with 3 validators, 2 relays, 2 beacon nodes: every history of 1..3 rounds over 5 configuration documents x 4 failing parties, a refresh preceding each round; fan-out goroutines explored under deviation-bounded schedules (quick 0, thorough 1); every relay / node delivery and every signing request is compared with hand-written resolved settings, and signatures encode the signed content so that stale reuse is visible.",
    "Trusted: expected settings per document written out by hand (C10 checks the resolver); relay clients injected through the util hook; REST daemon stubbed.",
    MC + " (deviation-bounded)", "DESIGN.md §6 C11"),
+ "C03": ("model_checking",
+   "The real controller with the real scheduler and real chain time on a virtual clock, started at 4 instants of an epoch (a restart is a start instant) x attester / proposer duty-table pairs (before / after a reorg: same, moved, dropped, with out-of-epoch duties, dense) x head-event scripts (1-2 events after a baseline, position in slot before/after the attestation time, roots same / previous / current changed), run for three epochs under deviation-bounded schedules (quick 0, thorough 1). The oracle is computed from the log of the beacon node's answers. Plus an exhaustive grid of chain parameters for the slot/epoch/wall-clock conversion identities.",
+   "Trusted: virtual clock; recording attester / proposer; duties for a slot in progress when obtained are optional except where the statement is explicit; sync-committee windows are C15.",
+   MC + " (deviation-bounded) + exhaustive parameter grid", "DESIGN.md §6 C03"),
 }
 checks = []
 for pid in ids:
